@@ -1529,6 +1529,18 @@ def run_spox(op: Op, call, value_prop: bool = False, vs=None, keep_outputs: bool
                               for k, v in nd.attrs.get_fields().items()],
                 }
                 res["node_cls"] = type(nd)
+                # what the two supplements that run the standard routine first look at (model: loopOwn / compressOwn)
+                try:
+                    if op.name == "Loop":
+                        body = nd.attrs.body.value
+                        n_c = len(body.requested_arguments) - 2
+                        res["node"]["loop"] = {
+                            "results": [from_spox_type(v.type) for v in list(body.requested_results.values())[1:][:n_c]],
+                            "args": [from_spox_type(v.type) for v in body.requested_arguments[2:]]}
+                    elif op.name == "Compress":
+                        res["node"]["compress"] = {"axis": None if nd.attrs.axis is None else int(nd.attrs.axis.value)}
+                except Exception as e:  # noqa: BLE001
+                    res["obs_errors"].append(f"supplement inputs: {type(e).__name__}: {e}"[:200])
         except Exception as e:  # noqa: BLE001
             res["obs_errors"].append(f"node attributes: {type(e).__name__}: {e}"[:200])
     return res
@@ -1568,6 +1580,9 @@ def model_request(op: Op, call, sp: dict) -> Optional[dict]:
                 req["infer"] = inf
         else:
             req["infer"] = "reject"
+    for k in ("loop", "compress"):
+        if k in sp["node"] and cls is not None and is_patched(cls) and not any(has_other(t) for v in sp["node"][k].values() if isinstance(v, list) for t in v):
+            req[k] = sp["node"][k]
     if sp.get("has_value") is not None and cls is not None:
         keys = []
         for f in dataclasses.fields(cls.Outputs):
